@@ -6,6 +6,7 @@ import numpy as np
 
 from . import common as C
 from translate import lincomb as TL
+from translate import space_ops as TS
 
 PID = 'C01'
 SHARD_SIZE = 120
@@ -229,7 +230,7 @@ def layout_choice(rng, ndim, want_blas=False):
     return rng.choice(['CCC', 'FFF', 'CFC', 'FCF', 'CCF', 'SCC', 'CCS', 'FSF', 'SSS'])
 
 
-IMPORTS = ['C01.Syntax', 'Gen.Lincomb', 'C01.Carriers', 'C01.Model', 'C01.ModelSpace', 'C01.Corr']
+IMPORTS = ['C01.Syntax', 'Gen.Lincomb', 'Gen.SpaceOps', 'C01.Carriers', 'C01.Model', 'C01.ModelSpace', 'C01.Corr']
 BIG_CHUNK = 5       # big cases per shard (each costs ~1.5 s of vm_compute)
 
 
@@ -795,7 +796,7 @@ def space_cases(rng, tier, S):
 
 # ------------------------------------------------------------------ framework entry points
 def translate():
-    return {'Gen/Lincomb.v': TL.translate()}
+    return {'Gen/Lincomb.v': TL.translate(), 'Gen/SpaceOps.v': TS.translate()}
 
 
 def correspondence(rng, tier):
